@@ -351,13 +351,14 @@ structure ClockOk (s : St) : Prop where
 
 theorem clock_exec (s : St) (x : Micro) (h : ClockOk s) :
     (exec s x).1.mgrLeft ≤ totalSwitchBudget ∧ (exec s x).1.gLeft ≤ totalSwitchBudget ∧
-    0 ≤ (exec s x).1.nextRet.age := by
-  obtain ⟨h1, h2, h3⟩ := h
+    0 ≤ (exec s x).1.nextRet.age ∧ (exec s x).1.muteLeft ≤ quiesceNs := by
+  obtain ⟨h1, h2, h3, h4⟩ := h
   have := retireDoneAt_le_total s.nextRet h3
-  cases x <;> simp only [exec] <;> (repeat' split) <;> (try simp only) <;> exact ⟨by omega, by omega, h3⟩
+  cases x <;> simp only [exec] <;> (repeat' split) <;> (try simp only) <;>
+    exact ⟨by omega, by omega, h3, by first | omega | exact Nat.le_refl _⟩
 
 theorem clock_step {s s' : St} (h : ClockOk s) (a : Act) (hs : step s a = some s') : ClockOk s' := by
-  obtain ⟨h1, h2, h3⟩ := h
+  obtain ⟨h1, h2, h3, h4⟩ := h
   unfold step at hs
   cases hex : s.exited
   case true => simp [hex] at hs
@@ -367,24 +368,24 @@ theorem clock_step {s s' : St} (h : ClockOk s) (a : Act) (hs : step s a = some s
     split at hs
     · cases hs
     · simp only [Option.some.injEq] at hs; subst hs
-      obtain ⟨a1, a2, a3⟩ := clock_exec s _ ⟨h1, h2, h3⟩
-      exact ⟨a1, a2, a3⟩
+      obtain ⟨a1, a2, a3, a4⟩ := clock_exec s _ ⟨h1, h2, h3, h4⟩
+      exact ⟨a1, a2, a3, a4⟩
   case stepW =>
     split at hs
     · cases hs
     · simp only [Option.some.injEq] at hs; subst hs
-      obtain ⟨a1, a2, a3⟩ := clock_exec s _ ⟨h1, h2, h3⟩
-      exact ⟨a1, a2, a3⟩
+      obtain ⟨a1, a2, a3, a4⟩ := clock_exec s _ ⟨h1, h2, h3, h4⟩
+      exact ⟨a1, a2, a3, a4⟩
   all_goals (
     repeat' split at hs
     all_goals first
       | (cases hs <;> done)
       | (simp only [Option.some.injEq] at hs; subst hs
-         refine ⟨?_, ?_, ?_⟩ <;> (try simp only [exec]) <;> omega))
+         refine ⟨?_, ?_, ?_, ?_⟩ <;> (try simp only [exec]) <;> (repeat' split) <;> first | omega | exact Nat.le_refl _))
 
 theorem reachable_clock {s : St} (h : Reachable s) : ClockOk s := by
   induction h with
-  | init => exact ⟨by simp [init], by simp [init], by simp [init]⟩
+  | init => exact ⟨by simp [init], by simp [init], by simp [init], by simp [init]⟩
   | step a _ hs ih => exact clock_step ih a hs
 
 def tickOf : Act → Nat
